@@ -196,6 +196,48 @@ def judge_tables(job):
             n += 1
             check_value(s, "boolean", text, r["ok"], r["val"] if r["ok"] else None, out, ver,
                         "xs:boolean", compare=lambda a, b: a is b)
+    elif table == "strfacets":
+        for r in rows:
+            f = r["f"]
+            fx = "".join(f'<xs:{name} value="{f[k]}"/>' for k, name in (("len", "length"), ("minl", "minLength"),
+                                                                            ("maxl", "maxLength")) if f[k] != 99)
+            body = (f'<xs:simpleType name="S"><xs:restriction base="xs:string">{fx}</xs:restriction></xs:simpleType>'
+                    '<xs:element name="v" type="S"/>')
+            s, err = typed_schema(ver, body, "str" + fx)
+            if s is None:
+                continue
+            n += 1
+            # (an empty element is decoded as None by the default converter: the value is compared when there is one)
+            check_value(s, "S", "abcd"[:r["n"]], r["ok"], "abcd"[:r["n"]] if (r["ok"] and r["n"]) else None, out, ver,
+                        "xs:string " + fx)
+    elif table == "digits":
+        for r in rows:
+            f = r["f"]
+            fx = "".join(f'<xs:{name} value="{f[k]}"/>' for k, name in (("td", "totalDigits"), ("fd", "fractionDigits"))
+                         if f[k] != 99)
+            body = (f'<xs:simpleType name="D"><xs:restriction base="xs:decimal">{fx}</xs:restriction></xs:simpleType>'
+                    '<xs:element name="v" type="D"/>')
+            s, err = typed_schema(ver, body, "dig" + fx)
+            if s is None:
+                continue
+            n += 1
+            check_value(s, "D", r["text"], r["ok"], Decimal(r["text"]) if r["ok"] else None, out, ver,
+                        "xs:decimal " + fx)
+    elif table == "patterns":
+        for r in rows:
+            body = (f'<xs:simpleType name="P"><xs:restriction base="xs:{r["base"]}"><xs:pattern value="[a-c]{{2}}"/>'
+                    '</xs:restriction></xs:simpleType><xs:element name="v" type="P"/>')
+            s, err = typed_schema(ver, body, "pat" + r["base"])
+            n += 1
+            check_value(s, "P", r["x"].replace("_", " "), r["ok"], None, out, ver, f"xs:{r['base']} pattern [a-c]{{2}}")
+    elif table == "timezones":
+        if ver == "1.1":
+            for r in rows:
+                body = (f'<xs:simpleType name="Z"><xs:restriction base="xs:date"><xs:explicitTimezone value="{r["tz"]}"/>'
+                        '</xs:restriction></xs:simpleType><xs:element name="v" type="Z"/>')
+                s, err = typed_schema(ver, body, "tz" + r["tz"])
+                n += 1
+                check_value(s, "Z", "2024-01-01" + r["z"], r["ok"], None, out, ver, f"xs:date explicitTimezone={r['tz']}")
     elif table == "times":
         s, err = typed_schema(ver, '<xs:element name="v" type="xs:time"/>', "time")
         for r in rows:
@@ -262,7 +304,7 @@ def run(ctx: Ctx):
                 constants={"MaxLen": 0, "Kinds": '{"decimal"}'}, tag="tables")
     tables = {x["table"]: x["rows"] for x in t.json_records()}
     if set(tables) != {"bounds", "facets", "lists", "unions", "bools", "dates10", "dates11", "times", "durations",
-                       "hex", "base64"}:
+                       "hex", "base64", "strfacets", "digits", "patterns", "timezones"}:
         raise MachineryError(f"tables missing: {sorted(tables)}")
     total = 0
     bad_all = []
@@ -290,7 +332,8 @@ def run(ctx: Ctx):
         bad_all += bad
     # small tables
     jobs = [(name, tables[name], ver) for ver in ("1.0", "1.1")
-            for name in ("lists", "unions", "bools", "times", "durations", "hex", "base64")]
+            for name in ("lists", "unions", "bools", "times", "durations", "hex", "base64", "strfacets", "digits",
+                         "patterns", "timezones")]
     jobs += [("dates", tables["dates10"], "1.0"), ("dates", tables["dates11"], "1.1")]
     for bad, n in ctx.pmap(judge_tables, jobs):
         total += n
